@@ -52,6 +52,7 @@ type Engine struct {
 	typeInvs    map[string]*typeInvInfo
 	tiProblems  []string
 	hasWait     map[*ssa.Function]bool
+	extTypeInvs []string
 	immAllowed  map[*ssa.Function]bool
 	reachCache  map[string]bool
 	cbFree      map[*types.Package]bool
@@ -343,7 +344,11 @@ func (e *Engine) specStaticType(x Expr, fn *ssa.Function) types.Type {
 	case *EStar:
 		return e.specStaticType(n.X, fn)
 	case *EUnary:
-		return e.specStaticType(n.X, fn)
+		t := e.specStaticType(n.X, fn)
+		if n.Op == "*" && t != nil {
+			return derefType(t)
+		}
+		return t
 	case *ECall:
 		if n.Fn == "old" && len(n.Args) == 1 {
 			return e.specStaticType(n.Args[0], fn)
@@ -1078,7 +1083,24 @@ func (e *Engine) initTypeInvs() {
 			e.tiProblems = append(e.tiProblems, ti.Where+": unknown package")
 			continue
 		}
-		tm, ok := sp.Members[ti.Type].(*ssa.Type)
+		tsp, tname := sp, ti.Type
+		if i := strings.Index(ti.Type, "."); i > 0 {
+			// a type of an imported (external) package: the invariant is an assumed contract of the library that
+			// produces such objects; the repository itself must not write their fields (closed-world scan)
+			tsp = nil
+			for _, imp := range sp.Pkg.Imports() {
+				if imp.Name() == ti.Type[:i] {
+					tsp = e.prog.Package(imp)
+				}
+			}
+			tname = ti.Type[i+1:]
+			if tsp == nil {
+				e.tiProblems = append(e.tiProblems, ti.Where+": package of "+ti.Type+" is not imported")
+				continue
+			}
+			e.extTypeInvs = append(e.extTypeInvs, ti.Type+" satisfies "+ti.Pred+" (assumed of library-produced objects)")
+		}
+		tm, ok := tsp.Members[tname].(*ssa.Type)
 		if !ok {
 			e.tiProblems = append(e.tiProblems, ti.Where+": no type "+ti.Type)
 			continue
